@@ -382,6 +382,18 @@ func (p *path) rangeIter(x value, t types.Type) value {
 		if x != nil {
 			it.order = append(it.order, x.keys...)
 		}
+		it.permute = p.cfg.PermuteMaps
+		if it.permute && p.cfg.PermuteSingle && len(it.order) > 1 {
+			// single-site variation: at most one map range per path leaves the reference order
+			if p.permUsed {
+				it.permute = false
+			} else if p.choose(2) == 1 {
+				p.envChoices++
+				p.permUsed = true
+			} else {
+				it.permute = false
+			}
+		}
 		return it
 	case Str:
 		return &strIter{s: x}
@@ -396,7 +408,7 @@ func (p *path) iterNext(itv value, instr *ssa.Next) value {
 	case *mapIter:
 		for len(it.order) > 0 {
 			k := 0
-			if p.cfg.PermuteMaps && len(it.order) > 1 {
+			if it.permute && p.cfg.PermuteMaps && len(it.order) > 1 {
 				k = p.choose(len(it.order))
 				p.envChoices++
 			}
